@@ -193,8 +193,16 @@ def it_signed_int(c):
     """signed helpers with a Python int operand (converted to a two's complement constant)"""
     wa, k, f = c['wa'], c['k'], c['f']
     a = I(wa, 'a')
-    fn = {'add': pyrtl.signed_add, 'mult': pyrtl.signed_mult}[f]
+    fn = {'add': pyrtl.signed_add, 'mult': pyrtl.signed_mult, 'lt': pyrtl.signed_lt, 'le': pyrtl.signed_le, 'gt': pyrtl.signed_gt,
+          'ge': pyrtl.signed_ge}[f]
     r = fn(a, k) if c['side'] == 'r' else fn(k, a)
+    if f in ('lt', 'le', 'gt', 'ge'):
+        def orc_cmp(ins):
+            x = signed_val(ins['a'], wa)
+            l_, r_ = (x, k) if c['side'] == 'r' else (k, x)
+            res = {'lt': l_ < r_, 'le': l_ <= r_, 'gt': l_ > r_, 'ge': l_ >= r_}[f]
+            return {'r': ite(res, 1, 0)}
+        return {'outs': {'r': r}, 'widths': {'r': 1}, 'oracle': orc_cmp}
     wk = len(pyrtl.Const(k, signed=True))
     wdoc = max(wa, wk) + 1 if f == 'add' else wa + wk
 
@@ -339,7 +347,7 @@ def cases(tier, seed):
             if wa > 65 or wb > 65:
                 continue
             out.append({'item': 'signed', 'f': f, 'wa': wa, 'wb': wb})
-    for f in ('add', 'mult'):
+    for f in ('add', 'mult', 'lt', 'le', 'gt', 'ge'):
         for wa in (1, 3, 4):
             for k in (-4, -1, 0, 1, 3, 5):
                 for side in 'lr':
